@@ -262,6 +262,38 @@ func (s *slicer) followAllocUse(al *ssa.Alloc, in ssa.Instruction, res *sliceRes
 				return true
 			case ssa.CallInstruction:
 				if cal := staticCallee(y); cal != nil && s.p.inModule(cal) {
+					// the object is handed to a module helper that fills it (appendRunText(&b, run)):
+					// what the helper writes into its parameter through outside methods counts as well
+					if depth < s.maxDepth {
+						for pi, a := range y.Common().Args {
+							if a != ssa.Value(al) || pi >= len(cal.Params) {
+								continue
+							}
+							par := cal.Params[pi]
+							allInstrs(cal, func(in2 ssa.Instruction) {
+								c2, ok := in2.(ssa.CallInstruction)
+								if !ok {
+									return
+								}
+								if cal2 := staticCallee(c2); cal2 != nil && s.p.inModule(cal2) {
+									return
+								}
+								uses := false
+								for _, a2 := range c2.Common().Args {
+									if a2 == ssa.Value(par) {
+										uses = true
+									}
+								}
+								if uses {
+									for _, a2 := range c2.Common().Args {
+										if a2 != ssa.Value(par) {
+											s.walk(a2, res, depth+1)
+										}
+									}
+								}
+							})
+						}
+					}
 					return false
 				}
 				calls = append(calls, y)
